@@ -394,7 +394,65 @@ def r4(ctx):
         ctx.check("R16.4", "added-before-push", bool(pushes) and min(pushes) > ia, "gradient-pushed-before-skip-add", where, "skip gradient added before gradients.push")
 
 
+def r5_e6(ctx):
+    """R16.5 on the E6 summary of Network::connect: on every way through that accepts the connection, the path facts contain an equality whose
+    two sides are the element counts of `layers[infrom]`'s and `layers[into]`'s own `inputs` shapes (Single(n) -> n, Triple(c, h, w) -> c*h*w) for the
+    variants that path is about; a path without such a test, or comparing anything else, fails.  -> (ok, detail, number of accepting paths)"""
+    from .. import e6
+    c = ctx.crate
+    fn = ctx.fn("network::Network::connect")
+    E = e6.Exec(c, fn)
+    live = [p for p in E.run_fn() if p.exit is None or p.exit[0] == "return"]
+    SELF = ("p", "self")
+    LAYERS = ("field", SELF, "layers")
+    n = 0
+    for p in live:
+        want = []
+        for idx in ("infrom", "into"):
+            L = ("idx", LAYERS, ("p", idx))
+            var = [t[2] for (t, pol) in p.pc if pol and isinstance(t, tuple) and t[0] == "is" and t[1] == L]
+            if len(var) != 1:
+                return False, "an accepting path does not dispatch on layers[%s]" % idx, n
+            INP = ("field", ("payload", L, var[0], 0), "inputs")
+            shp = [t[2] for (t, pol) in p.pc if pol and isinstance(t, tuple) and t[0] == "is" and t[1] == INP]
+            if len(shp) != 1:
+                return False, "an accepting path does not look at layers[%s]'s `inputs` shape" % idx, n
+            k = {"tensor::Shape::Single": 1, "tensor::Shape::Triple": 3}.get(shp[0])
+            if k is None:
+                return False, "an accepting path takes a size from a %s shape" % shp[0].split("::")[-1], n
+            q = {tuple(sorted(repr(("payload", INP, shp[0], i)) for i in range(k))): 1}
+            want.append(q)
+        eqs = []
+        for (t, pol) in p.pc:
+            while isinstance(t, tuple) and t and t[0] == "un" and t[1] == "Not":
+                t, pol = t[2], not pol
+            if isinstance(t, tuple) and t and t[0] == "bin" and ((t[1] == "Eq" and pol) or (t[1] == "Ne" and not pol)):
+                eqs.append((e6.poly(t[2]), e6.poly(t[3])))
+        if not any((a == want[0] and b == want[1]) or (a == want[1] and b == want[0]) for a, b in eqs):
+            return False, "an accepting path does not require the two element counts to be equal (%s)" % "; ".join(e6.show(t, 2) for (t, _) in p.pc[-2:])[:160], n
+        n += 1
+    return n >= 8, "%d accepting paths" % n, n
+
+
 def r5(ctx):
+    sub = type(ctx)(ctx.prop, ctx.facts)
+    sub.guard("R16.5", "connect-sizes", r5_shape, sub)
+    bad = [o for o in sub.obligations if o["status"] != "ok"]
+    if bad:
+        try:
+            ok, detail, n = r5_e6(ctx)
+        except Exception:  # noqa
+            ok = False
+        if ok:
+            c = ctx.crate
+            where = c.loc(ctx.fn("network::Network::connect"))
+            for inst in ("both-layers-inspected", "reads-inputs:from", "reads-inputs:to", "counts-compared"):
+                ctx.ok("R16.5", inst, "established on the effect summary of connect: %s each compare the element counts of layers[infrom].inputs and layers[into].inputs" % detail, where)
+            return
+    ctx.obligations.extend(sub.obligations)
+
+
+def r5_shape(ctx):
     c = ctx.crate
     fn = ctx.fn("network::Network::connect")
     params = {p["name"]: p["hid"] for p in fn["params"] if p.get("k") == "bind"}
